@@ -115,9 +115,9 @@ static const std::vector<std::string> &opTable()
     // name, repeated by weight
     static const std::vector<std::string> t = [] {
         const std::vector<std::pair<std::string, int>> w = {
-            {"new", 5}, {"newstd", 1}, {"newc", 1}, {"copy", 5}, {"assign", 5}, {"move", 2}, {"assignc", 2}, {"assignraw", 3},
-            {"substr", 8}, {"appendc", 5}, {"appendsb", 6}, {"appendraw", 4}, {"push", 3}, {"appendf", 2}, {"printf", 1},
-            {"consume", 6}, {"chop", 4}, {"trim", 3}, {"lower", 2}, {"upper", 2}, {"setAt", 5}, {"at", 1}, {"clear", 2},
+            {"new", 3}, {"newstd", 1}, {"newc", 1}, {"copy", 7}, {"assign", 7}, {"move", 2}, {"assignc", 2}, {"assignraw", 3},
+            {"substr", 12}, {"appendc", 5}, {"appendsb", 6}, {"appendraw", 4}, {"push", 3}, {"appendf", 2}, {"printf", 1},
+            {"consume", 8}, {"chop", 4}, {"trim", 3}, {"lower", 2}, {"upper", 2}, {"setAt", 5}, {"at", 1}, {"clear", 2},
             {"reserveSpace", 2}, {"reserveCapacity", 2}, {"reserve", 2}, {"rawappend", 5}, {"cstr", 5},
             {"find", 2}, {"findsb", 2}, {"rfind", 2}, {"rfindsb", 2}, {"findset", 3}, {"cmp", 3}, {"casecmp", 2}, {"cmpc", 2},
             {"starts", 2}, {"eq", 2}, {"copyout", 1}};
@@ -131,6 +131,7 @@ static const std::vector<std::string> &opTable()
 static Case decode(vp::Dice &d)
 {
     Case c;
+    const int slots = d.pick<int>({2, 3, 3, 4, 4, 6}); // fewer live slots = denser aliasing
     // a few constructions first: later commands need content to alias
     for (int i = 0; i < 2 && d.more(); ++i) {
         Cmd m;
@@ -140,11 +141,12 @@ static Case decode(vp::Dice &d)
     while (d.more() && c.cmds.size() < 60) {
         Cmd m;
         m.op = d.pickFrom(opTable());
-        m.d = static_cast<int>(d.range(0, PoolSize - 1));
-        m.a = static_cast<int>(d.range(0, PoolSize - 1));
+        m.d = static_cast<int>(d.range(0, slots - 1));
+        m.a = static_cast<int>(d.range(0, slots - 1));
         if (d.chance(1, 8)) m.a = m.d; // self-aliasing
         m.x = posOf(d);
         m.y = posOf(d);
+        if (m.op == "rawappend" && (m.x == 0 || m.x == NPOS || m.x > 300) && !d.chance(1, 6)) m.x = d.range(1, 40); // known findings: keep them rare
         if (m.op == "new" || m.op == "newstd" || m.op == "newc" || m.op == "assignc" || m.op == "appendc" || m.op == "rawappend" || m.op == "cmpc")
             m.s = textOf(d);
         else if (m.op == "push" || m.op == "setAt" || m.op == "find" || m.op == "rfind" || m.op == "findset")
@@ -242,6 +244,7 @@ static vp::Verdict check(const Case &c, vp::Ctx &ctx)
     World w;
     std::set<std::string> labels;
     bool sharedWrite = false;
+    bool zeroRawAppend = false; // known finding: a zero-size rawAppendStart/Finish pair may truncate a shared blob's used size
     int step = 0;
     static const CharacterSet none("none", "");
 
@@ -366,7 +369,7 @@ static vp::Verdict check(const Case &c, vp::Ctx &ctx)
                 if (k) memcpy(space, m.s.data(), k);
                 D.rawAppendFinish(space, static_cast<SBuf::size_type>(k));
                 MD += m.s.substr(0, k);
-                if (n == 0) labels.insert("rawappend:zero");
+                if (n == 0) { labels.insert("rawappend:zero"); zeroRawAppend = true; }
             }
             else if (m.op == "cstr") {
                 const char *p = D.c_str();
@@ -447,11 +450,19 @@ static vp::Verdict check(const Case &c, vp::Ctx &ctx)
             threw = false; // raised by the harness itself: the expected exception did not come
         }
         labels.insert(m.op);
+        if (!threw && wantThrow && m.op == "rawappend" && (m.x == NPOS ? 0xffffffffULL : static_cast<uint64_t>(m.x)) + MD.size() >= 0xffffffffULL)
+            return vp::fail("sbuf:rawAppendStart-size-plus-length-wraps-no-throw", where + " anticipatedSize=" + std::to_string(m.x) + " length=" + std::to_string(MD.size()));
+        if (zeroRawAppend && (threw != wantThrow || !bad.empty()))
+            return vp::fail("sbuf:corruption-after-zero-size-rawAppend", where + (threw != wantThrow ? " unexpected/missing throw" : " " + bad));
         if (threw != wantThrow)
             return vp::fail(threw ? "sbuf:unexpected-throw:" + m.op : "sbuf:missing-throw:" + m.op, where);
         if (threw) labels.insert("throws");
         if (!bad.empty()) return vp::fail("sbuf:query-differs:" + m.op, where + " " + bad);
         const std::string mm = w.mismatch();
+        if (!mm.empty() && (m.op == "chop" || m.op == "substr") && m.x >= 0 && m.y >= 0 && m.x + m.y > 0xffffffffLL)
+            return vp::fail("sbuf:chop-substr-pos-plus-n-wraps-32bit", where + " " + mm);
+        if (!mm.empty() && zeroRawAppend)
+            return vp::fail("sbuf:corruption-after-zero-size-rawAppend", where + " " + mm);
         if (!mm.empty()) {
             // classify: was the damaged slot the target of the operation or a bystander?
             const bool target = mm.rfind("slot " + std::to_string(d) + " ", 0) == 0 || (m.op == "consume" && mm.rfind("slot " + std::to_string(a) + " ", 0) == 0) ||
